@@ -48,7 +48,7 @@ impl SockServer {
             });
             let _ = r;
         })?;
-        let (addr, handle) = rx.recv_timeout(Duration::from_secs(20)).map_err(|_| anyhow::anyhow!("socket server did not start"))??;
+        let (addr, handle) = rx.recv_timeout(Duration::from_secs(90)).map_err(|_| anyhow::anyhow!("socket server did not start"))??;
         Ok(SockServer { addr, handle, join: Some(join) })
     }
 }
@@ -106,7 +106,7 @@ pub fn exchange(addr: SocketAddr, req: &HttpReq, enc: Encoding, write_sizes: &[u
     head.extend_from_slice(format!("{} {} HTTP/{}\r\nHost: {}\r\nConnection: close\r\n", req.method, req.path, if http10 { "1.0" } else { "1.1" }, addr).as_bytes());
     for (n, v) in &req.headers {
         // the framing headers are this function's business
-        if n.eq_ignore_ascii_case("content-length") || n.eq_ignore_ascii_case("transfer-encoding") || n == crate::driver::VERSION_PSEUDO_HEADER || n == crate::driver::BREAK_PSEUDO_HEADER {
+        if n.eq_ignore_ascii_case("content-length") || n.eq_ignore_ascii_case("transfer-encoding") || n == crate::driver::VERSION_PSEUDO_HEADER || n == crate::driver::BREAK_PSEUDO_HEADER || n == crate::driver::STEP_PSEUDO_HEADER || n == crate::driver::ALSO_CL_PSEUDO_HEADER {
             continue;
         }
         head.extend_from_slice(n.as_bytes());
@@ -122,7 +122,14 @@ pub fn exchange(addr: SocketAddr, req: &HttpReq, enc: Encoding, write_sizes: &[u
     if has_body {
         match enc {
             Encoding::ContentLength => head.extend_from_slice(format!("Content-Length: {total}\r\n").as_bytes()),
-            Encoding::Chunked => head.extend_from_slice(b"Transfer-Encoding: chunked\r\n"),
+            Encoding::Chunked => {
+                head.extend_from_slice(b"Transfer-Encoding: chunked\r\n");
+                if let Some((_, v)) = req.headers.iter().find(|(n, _)| n == crate::driver::ALSO_CL_PSEUDO_HEADER) {
+                    head.extend_from_slice(b"Content-Length: ");
+                    head.extend_from_slice(v);
+                    head.extend_from_slice(b"\r\n");
+                }
+            }
         }
     }
     head.extend_from_slice(b"\r\n");
@@ -222,7 +229,7 @@ impl KeepAlive {
             let mut msg = Vec::new();
             msg.extend_from_slice(format!("{} {} HTTP/1.1\r\nHost: {}\r\n", req.method, req.path, self.addr).as_bytes());
             for (n, v) in &req.headers {
-                if n.eq_ignore_ascii_case("content-length") || n.eq_ignore_ascii_case("transfer-encoding") || n.eq_ignore_ascii_case("connection") || n == crate::driver::VERSION_PSEUDO_HEADER || n == crate::driver::BREAK_PSEUDO_HEADER {
+                if n.eq_ignore_ascii_case("content-length") || n.eq_ignore_ascii_case("transfer-encoding") || n.eq_ignore_ascii_case("connection") || n == crate::driver::VERSION_PSEUDO_HEADER || n == crate::driver::BREAK_PSEUDO_HEADER || n == crate::driver::STEP_PSEUDO_HEADER || n == crate::driver::ALSO_CL_PSEUDO_HEADER {
                     continue;
                 }
                 msg.extend_from_slice(n.as_bytes());
